@@ -99,7 +99,11 @@ pub fn c18() -> i32 {
             }
         }
     }
-    for (tp, spec) in [("1+1", 0), ("2+1", 0), ("1+1+1", 0), ("1+1", 1), ("1+1", 2), ("1+1", 3)] {
+    let mut tops: Vec<(&str, i32)> = vec![("1+1", 0), ("2+1", 0), ("1+1+1", 0), ("1+1", 1), ("1+1", 2), ("1+1", 3)];
+    if t {
+        tops.extend([("2+2", 0), ("1+1+1+1", 0), ("3+1", 1), ("2+2", 3)]);
+    }
+    for (tp, spec) in tops {
         for w in [0usize, 1, 8] {
             for d in [0usize, 3] {
                 for desync in [0u32, 1, 7] {
